@@ -175,25 +175,38 @@ Section Reduce.
   Definition S_ (acc v : value) : M (value + value) :=
     run_body rs dcur (bind_param (bind_param E next v) cur acc) body.
 
+  (** every accumulator along the way stays within reduce's nesting bound *)
   Inductive rtrace : list value -> value -> log -> value -> log -> Prop :=
   | rt_nil a lg : rtrace [] a lg a lg
   | rt_cons v r a lg a1 lg1 a2 lg2 :
-      S_ a v lg = (ROk (inr a1), lg1) -> rtrace r a1 lg1 a2 lg2 -> rtrace (v :: r) a lg a2 lg2.
+      S_ a v lg = (ROk (inr a1), lg1) -> nested_too_deep a1 = false ->
+      rtrace r a1 lg1 a2 lg2 -> rtrace (v :: r) a lg a2 lg2.
 
   Theorem reduce_threads_accumulator l seed lg a lg' :
     rtrace l seed lg a lg' -> reduce_loop rs E dcur cur next body l seed lg = (ROk a, lg').
   Proof.
-    induction 1 as [a0 lg0|v r a0 lg0 a1 lg1 a2 lg2 Hs Ht IH]; cbn [reduce_loop]; [reflexivity|].
-    unfold mbind. fold (S_ a0 v). rewrite Hs. exact IH.
+    induction 1 as [a0 lg0|v r a0 lg0 a1 lg1 a2 lg2 Hs Hd Ht IH]; cbn [reduce_loop]; [reflexivity|].
+    unfold mbind. fold (S_ a0 v). rewrite Hs, Hd. exact IH.
   Qed.
 
   Theorem reduce_stops_at_first_failure pre v post seed lg a lg1 e lg2 :
     rtrace pre seed lg a lg1 -> S_ a v lg1 = (ROk (inl e), lg2) ->
     reduce_loop rs E dcur cur next body (pre ++ v :: post) seed lg = (ROk e, lg2).
   Proof.
-    induction 1 as [a0 lg0|u r a0 lg0 a1 lg1' a2 lg2' Hs Ht IH]; intros Hb; cbn [app reduce_loop].
+    induction 1 as [a0 lg0|u r a0 lg0 a1 lg1' a2 lg2' Hs Hd Ht IH]; intros Hb; cbn [app reduce_loop].
     - unfold mbind. fold (S_ a0 v). rewrite Hb. reflexivity.
-    - unfold mbind. fold (S_ a0 u). rewrite Hs. apply IH. exact Hb.
+    - unfold mbind. fold (S_ a0 u). rewrite Hs, Hd. apply IH. exact Hb.
+  Qed.
+
+  (** an accumulator nested more than 1000 levels deep ends the loop with a value error: no value
+      deeper than that is ever bound, cloned or compared by a later step *)
+  Theorem reduce_stops_at_deep_accumulator pre v post seed lg a lg1 a1 lg2 :
+    rtrace pre seed lg a lg1 -> S_ a v lg1 = (ROk (inr a1), lg2) -> nested_too_deep a1 = true ->
+    reduce_loop rs E dcur cur next body (pre ++ v :: post) seed lg = (ROk (VErr EValue), lg2).
+  Proof.
+    induction 1 as [a0 lg0|u r a0 lg0 a1' lg1' a2 lg2' Hs Hd Ht IH]; intros Hb Hdeep; cbn [app reduce_loop].
+    - unfold mbind. fold (S_ a0 v). rewrite Hb, Hdeep. reflexivity.
+    - unfold mbind. fold (S_ a0 u). rewrite Hs, Hd. apply IH; assumption.
   Qed.
 End Reduce.
 
